@@ -89,6 +89,7 @@ type Enc struct {
 	errs        []string
 	bounded     bool
 	curState    *State
+	nonEsc      map[ssa.Value]bool
 	mathInts    bool // mode math: integers are unbounded mathematical integers (no range facts assumed)
 }
 
@@ -189,7 +190,7 @@ func (e *Enc) needStr() {
 	I := e.M.smtSort(SI)
 	e.prelude("Str", "(declare-sort Str 0)\n(declare-fun slen (Str) "+I+")\n(declare-fun sat (Str "+I+") "+I+")\n(declare-const str_empty Str)\n"+
 		"(assert (= (slen str_empty) "+e.M.ilit(0)+"))\n"+
-		"(assert (forall ((s Str)) (! (and "+e.M.ile(e.M.ilit(0), "(slen s)")+" "+e.M.ile("(slen s)", e.M.ilit(4611686018427387904))+") :pattern ((slen s)))))\n"+
+		"(assert (forall ((s Str)) (! "+e.M.ile(e.M.ilit(0), "(slen s)")+" :pattern ((slen s)))))\n"+
 		"(assert (forall ((s Str) (i "+I+")) (! (and "+e.M.ile(e.M.ilit(0), "(sat s i)")+" "+e.M.ile("(sat s i)", e.M.ilit(255))+") :pattern ((sat s i)))))\n"+
 		// extensionality: equal length and bytes imply equal strings
 		"(declare-fun sdiff (Str Str) "+I+")\n"+
@@ -208,8 +209,8 @@ func (e *Enc) needSsub() {
 	e.needStr()
 	I := e.M.smtSort(SI)
 	e.prelude("ssub", "(declare-fun ssub (Str "+I+" "+I+") Str)\n"+
-		"(assert (forall ((a Str) (i "+I+") (j "+I+")) (! (=> (and "+e.M.ile(e.M.ilit(0), "i")+" "+e.M.ile("i", "j")+") (= (slen (ssub a i j)) "+e.M.isub("j", "i")+")) :pattern ((ssub a i j)))))\n"+
-		"(assert (forall ((a Str) (i "+I+") (j "+I+") (k "+I+")) (! (=> (and "+e.M.ile(e.M.ilit(0), "k")+" "+e.M.ilt("k", e.M.isub("j", "i"))+") (= (sat (ssub a i j) k) (sat a "+e.M.iadd("i", "k")+"))) :pattern ((sat (ssub a i j) k)))))")
+		"(assert (forall ((a Str) (i "+I+") (j "+I+")) (! (=> (and "+e.M.ile(e.M.ilit(0), "i")+" "+e.M.ile("i", "j")+" "+e.M.ile("j", "(slen a)")+") (= (slen (ssub a i j)) "+e.M.isub("j", "i")+")) :pattern ((ssub a i j)))))\n"+
+		"(assert (forall ((a Str) (i "+I+") (j "+I+") (k "+I+")) (! (=> (and "+e.M.ile(e.M.ilit(0), "i")+" "+e.M.ile("j", "(slen a)")+" "+e.M.ile(e.M.ilit(0), "k")+" "+e.M.ilt("k", e.M.isub("j", "i"))+") (= (sat (ssub a i j) k) (sat a "+e.M.iadd("i", "k")+"))) :pattern ((sat (ssub a i j) k)))))")
 }
 
 func (e *Enc) strLit(s string) string {
@@ -289,6 +290,11 @@ func (e *Enc) typeFactsRec(t types.Type, L []string, st *State, fs *[]string) in
 	z := m.ilit(0)
 	switch u := t.Underlying().(type) {
 	case *types.Basic:
+		if u.Info()&types.IsString != 0 {
+			// strings of the running program are shorter than 2^62 bytes
+			e.needStr()
+			*fs = append(*fs, m.ile("(slen "+L[0]+")", m.ilit(4611686018427387904)))
+		}
 		if u.Info()&types.IsInteger != 0 && m == ModeInt && !e.mathInts {
 			bits, signed := intBits(u)
 			if bits > 0 {
@@ -469,14 +475,79 @@ func (e *Enc) preservedObjs(st *State) []string {
 				if _, isPtr := derefType(g.Type()).Underlying().(*types.Pointer); isPtr {
 					objs = append(objs, e.sel2(e.heap(st, SI), p.L[0], p.L[1]))
 				}
+			} else if c, err := parseClause(strings.ReplaceAll(n, "[*]", "[0]"), "stable"); err == nil {
+				// an expression over the parameters, e.g. l.pairs[*]: the object it designates at entry
+				save := len(e.errs)
+				if obj, _ := e.evalModTarget(c, e.fnEnv(e.entry, nil)); obj != "" {
+					objs = append(objs, obj)
+				}
+				e.errs = e.errs[:save]
 			}
 		}
 	}
 	return objs
 }
 
+// nonEscaping: local allocations (and captured-variable cells) whose address is only used for loads, stores and
+// field/element addressing inside this function: no callee can reach them, so unknown calls leave them unchanged.
+func (e *Enc) computeNonEscaping() {
+	e.nonEsc = map[ssa.Value]bool{}
+	var okUse func(v ssa.Value, depth int) bool
+	okUse = func(v ssa.Value, depth int) bool {
+		if depth > 6 {
+			return false
+		}
+		refs := v.Referrers()
+		if refs == nil {
+			return true
+		}
+		for _, r := range *refs {
+			switch x := r.(type) {
+			case *ssa.Store:
+				if x.Val == v {
+					return false // the address itself is stored somewhere
+				}
+			case *ssa.UnOp:
+				if x.Op != token.MUL {
+					return false
+				}
+			case *ssa.FieldAddr:
+				if !okUse(x, depth+1) {
+					return false
+				}
+			case *ssa.IndexAddr:
+				if !okUse(x, depth+1) {
+					return false
+				}
+			case *ssa.DebugRef:
+			default:
+				return false
+			}
+		}
+		return true
+	}
+	for _, b := range e.Fn.Blocks {
+		for _, ins := range b.Instrs {
+			if a, ok := ins.(*ssa.Alloc); ok && okUse(a, 0) {
+				e.nonEsc[a] = true
+			}
+		}
+	}
+	for _, fv := range e.Fn.FreeVars {
+		if _, isPtr := fv.Type().Underlying().(*types.Pointer); isPtr && okUse(fv, 0) {
+			e.nonEsc[fv] = true
+		}
+	}
+}
+
 func (e *Enc) havocAll(st *State) {
 	keep := e.preservedObjs(st)
+	for v := range e.nonEsc {
+		if x, ok := e.vals[v]; ok && !x.Bad && len(x.L) == 2 {
+			keep = append(keep, x.L[0])
+		}
+	}
+	sort.Strings(keep)
 	old := st.clone()
 	defer func() {
 		for _, o := range keep {
